@@ -207,8 +207,8 @@ impl Prop for C16 {
 	}
 	fn budget(&self, tier: Tier) -> (u64, u64) {
 		match tier {
-			Tier::Quick => (6_000, 75),
-			Tier::Thorough => (200_000, 900),
+			Tier::Quick => (3_000, 75),
+			Tier::Thorough => (100_000, 900),
 		}
 	}
 
